@@ -272,6 +272,8 @@ def run(run):
                 idx += 1
                 if not run.mine(idx):
                     continue
+                if run.nviol > 400:
+                    break                 # the tree is clearly broken: more witnesses add nothing but run time
                 m = REQUESTS[idx % len(REQUESTS)]
                 case = {'client': kind, 'cfg': cfg, 'script': list(names), 'm': m, 'bseed': idx}
                 ok = run_script(run, case)
